@@ -52,7 +52,10 @@ Step(tags, ks, kind) ==
   /\ IF "reset" \in ks THEN /\ stats' = Bump(stats, ks \cup (IF nt THEN {"cases_nontrivial"} ELSE {})) /\ nt' = FALSE
      ELSE /\ stats' = Bump(stats, ks) /\ nt' = (nt \/ ks \cap Binding # {})
 
-Modified(ev) == IF ev.post.k # "SAME" THEN {"C18:packet_modified"} ELSE {}
+\* post: the packet's projection changed; memsame = FALSE: memory the caller owns around the packet was
+\* written (spare capacity behind one of its byte slices, or the buffer it was decoded from)
+Modified(ev) == (IF ev.post.k # "SAME" THEN {"C18:packet_modified"} ELSE {})
+                \cup (IF "memsame" \in DOMAIN ev /\ ~ev.memsame THEN {"C18:caller_memory_written"} ELSE {})
 InputMod(ev) == IF ~ev.bufsame THEN {"C18:input_modified"} ELSE {}
 
 TrBuild ==
